@@ -29,10 +29,12 @@ CHECKS = {
              "the position advances by exactly the bytes handed to the "
              "controller (R4); every operation incl. slicing is guarded by "
              "the closed/freed test whose wrapper really tests both flags "
-             "(R5). Tests sample a few offsets; this covers all.",
+             "(R5); TruncationWarning is tied to the branch that cuts the "
+             "transfer to the bytes available (R6). Tests sample a few "
+             "offsets; this covers all.",
         note="Not decided: that reads return the bytes last written (needs a "
              "memory model; follows from C07 + R1-R4 if the controller is "
-             "right); when TruncationWarning is emitted. Assumes distinct "
+             "right). Assumes distinct "
              "local names are not aliases; Python slice-length semantics as "
              "axiomatised in the checker. Known finding K1 (seek whence 2 "
              "uses length-n) is listed in known_findings.json."),
@@ -74,10 +76,8 @@ CHECKS = {
         technique="effect / mutation analysis: origin-tracking dataflow "
                   "(parameter depth, fresh, module-level) with callee "
                   "summaries, flag partitioning and allow-lists",
-        text="For all 327 parameters of public functions/methods in "
-             "rig.place_and_route, rig.routing_table, rig.netlist, "
-             "rig.bitfield, rig.utils.contexts, rig.geometry, rig.links, "
-             "struct_file: no in-place mutation of an argument down to two "
+        text="For all 719 parameters of public functions/methods of the "
+             "whole rig package (64 modules): no in-place mutation of an argument down to two "
              "levels inside it, directly or via resolved callees (R1); "
              "module-level mutables written only by the one allow-listed "
              "memo (R2); no mutable default mutated or retained (R3); RNG "
@@ -89,7 +89,7 @@ CHECKS = {
              "of user objects; aliasing through objects of non-rig classes. "
              "Assumes rig functions return objects that do not alias their "
              "arguments except as modelled (copies, elements, iterators). "
-             "Allow-lists (8 symbols) carry a written reason each."),
+             "Allow-lists (11 symbols) carry a written reason each."),
     "C20": dict(
         technique="effect analysis (no leaking options) + CFG dominance / "
                   "must-pass-through for the datagram order + Fourier-"
@@ -149,10 +149,9 @@ CHECKS = {
              "the A, N actually sent (R2). Payload offset 14 (R3). Struct "
              "and per-core field address formulas; fill alignment branch "
              "(R4). x/y/p/address/length forwarded role-preservingly to the "
-             "connection (R5).",
-        note="Not decided: faults beyond C06; the machine's side; that link "
-             "chunks stay word multiples inside the loop (only the %4 entry "
-             "guards). Assumes advertised buffer size >= 1 (>= 4 for links) "
+             "connection (R5). Link commands' address and length stay "
+             "multiples of 4 through the loop (must-analysis, R1).",
+        note="Not decided: faults beyond C06; the machine's side. Assumes advertised buffer size >= 1 (>= 4 for links) "
              "and non-negative lengths."),
     "C05": dict(
         technique="order-type abstract evaluation of slices_overlap (75 weak "
